@@ -37,9 +37,11 @@ STD_CLASSES: List[dict] = [
     # a slots dataclass deriving from the plain dataclass 0 (instances have an empty __dict__)
     {"kind": "data_slots", "base_cls": 0, "own": 0,
      "fields": [("a", None, None, True), ("b", None, ("VInt", 5), False)]},                           # 15
+    # same field names as class 3, every key required (for requiredness-only differences)
+    {"kind": "typed", "total": True, "fields": [("k", None, None, True), ("o", None, None, True)]},   # 16
 ]
 (C_DATA, C_SLOTS, C_NAMED, C_TYPED, C_PLAIN, C_STR, C_INT, C_DICT, C_LIST, C_FROZEN, C_TYPED2, C_UNHASH,
- C_POSTINIT, C_BASE2, C_DERIVED2, C_SLOTSUB) = range(16)
+ C_POSTINIT, C_BASE2, C_DERIVED2, C_SLOTSUB, C_TYPED_ALLREQ) = range(17)
 
 
 def S(s: str):
@@ -298,6 +300,7 @@ CLASS_SCHEMAS = {
     C_BASE2: ("RkData", [("a", True), ("b", True)]),
     C_DERIVED2: ("RkData", [("a", True), ("b", False)]),
     C_SLOTSUB: ("RkData", [("a", True), ("b", False)]),
+    C_TYPED_ALLREQ: ("RkTyped", [("k", True), ("o", True)]),
 }
 
 
